@@ -509,6 +509,21 @@ func genC03(o *Out, rng *rand.Rand, tier string) {
 		w, _ := wirePacket4(rng)
 		v4c = append(v4c, w)
 	}
+	// relayed requests whose option 82 carries the sub-options of the relay RFCs (3046, 3527, 4243, 5010, 5107, 6607, Cisco's
+	// pre-standard codes) with values of every small length, the empty one included: what a reply builder or an extractor
+	// reads from them must be there
+	for _, sc := range []int{1, 2, 4, 5, 6, 9, 10, 11, 12, 151, 152, 150, 255} {
+		for l := 0; l <= 5; l++ {
+			p, _ := dhcpv4.NewDiscovery(net.HardwareAddr{2, 0, 0, 0, 0, byte(sc)})
+			p.GatewayIPAddr = net.IPv4(10, 0, byte(sc), 1).To4()
+			sub := append([]byte{1, 3, 'e', 't', 'h', byte(sc), byte(l)}, randBytes(rng, l)...)
+			if l%2 == 0 {
+				sub = append(sub, 151, 1, 0)
+			}
+			p.Options[82] = sub
+			v4c = append(v4c, p.ToBytes())
+		}
+	}
 	v6c = append(v6c, corpus6(rng, n)...)
 	for _, w := range v4c {
 		tryV4(w, "valid-v4")
